@@ -495,3 +495,9 @@ theorem popN_spec (j : Nat) (k : KillRing) (h : WF k) (size : Nat) (hy : k.lastA
       | zero => rfl
       | succ j ihj => simp only [cycN]; rw [ihj]; rfl
 
+/-- the byte length of `n` copies (yank with a numeric argument) -/
+theorem blen_replicate_flatten (n : Nat) (t : Text) : blen (List.replicate n t).flatten = blen t * n := by
+  induction n with
+  | zero => simp
+  | succ m ih => simp [List.replicate_succ, ih, Nat.mul_succ, Nat.add_comm]
+
